@@ -650,6 +650,12 @@ pub fn gen_read_scn(id: &str, rng: &Rng, tier: Tier) -> ReadScn {
                     }
                     (v, "fasta_invalid_start", at)
                 }
+                Fmt::Fastq if rng.chance(1, 40) => {
+                    let v = long_line_truncated(rng);
+                    let m = model::build(Fmt::Fastq, &v);
+                    let off = m.terminal().byte as usize;
+                    (v, "long_line_truncated", off)
+                }
                 Fmt::Fastq => {
                     let a = gen_afastq(rng, 9, rng.chance(1, 4));
                     let e = *rng.pick(&[Ending::Lf, Ending::Lf, Ending::Crlf]);
@@ -662,7 +668,9 @@ pub fn gen_read_scn(id: &str, rng: &Rng, tier: Tier) -> ReadScn {
                 }
             };
             let mut cfg = gen_cfg(rng, &input, true);
-            if rng.chance(2, 3) {
+            if class == "long_line_truncated" && rng.chance(1, 2) {
+                cfg.cap = rng.range(4096, input.len().max(4097));
+            } else if rng.chance(2, 3) {
                 // place the defect at offset -3..+3 around a buffer end
                 let d = rng.range(0, 6) as i64 - 3;
                 let k = rng.range(1, 3) as i64;
